@@ -12,8 +12,8 @@
    is proved relative to it, for EVERY token sequence of the dialect (no parse hypothesis: also
    sequences no program contains), every configuration and every keep file. *)
 From PV Require Import Base.Prelude Spec.LuaLex Instances.HoldsC02 Instances.HoldsC01
-  Generated.T_lexer Model.NameFactory Model.Lexer Model.TokWriters
-  Proofs.LuaLexFacts Proofs.TokWritersProofs Proofs.MinifyRelex Proofs.MinifyRelations Proofs.MinifyEndToEnd.
+  Generated.T_lexer Generated.T_luanames Model.NameFactory Model.Lexer Model.TokWriters
+  Proofs.LuaLexFacts Proofs.TokWritersProofs Proofs.MinifyRelex Proofs.MinifyRelations Proofs.MinifyEndToEnd Proofs.MinifyCount.
 
 (* the writer never raises *)
 Theorem C01_minify_total : forall cfg ts, exists chunks, minify cfg ts = Ok chunks.
@@ -55,6 +55,27 @@ Theorem C01_holds_all : forall cfg src out, Forall byte src -> luamin_text cfg [
   holds_C01 src out = true /\ holds_C19 src out = true.
 Proof. exact luamin_holds_all. Qed.
 Print Assumptions C01_holds_all.
+
+(* the token count `stats` reports (Lua.get_token_count = token_count of Model/Lexer.v, with picotool's
+   own weights) is the same for the source and for the written text: lexer model on src, writer
+   model, lexer model again on the output (which is shown to be a byte string of the dialect) *)
+Theorem C01_stats_count : forall cfg src ss, Forall byte src -> spec_toks src = Some ss ->
+  exists ts out ts', model_lex [src] = Ok ts /\ luamin_text cfg [src] = Ok out /\ model_lex [out] = Ok ts' /\
+    token_count ts' = token_count ts.
+Proof. exact luamin_stats_count. Qed.
+Print Assumptions C01_stats_count.
+
+(* the identifier tokens of the written text, aligned with those of the source (names and label
+   names, in order), satisfy the instance predicate of C02: the renaming seen on the program is a
+   consistent injection that keeps keywords, builtins, keep-file names and - with keep_all - all
+   names, and generated names are fresh identifiers *)
+Theorem C01_identifiers_C02 : forall cfg src ss, Forall byte src -> spec_toks src = Some ss ->
+  exists out ss', luamin_text cfg [src] = Ok out /\ spec_toks out = Some ss' /\
+    length (sig_toks ss') = length (sig_toks ss) /\
+    holds_C02 (keep_all cfg) (keep_list cfg) preserved_names
+      (ident_names (sig_toks ss)) (ident_names (sig_toks ss')) = true.
+Proof. exact luamin_identifiers. Qed.
+Print Assumptions C01_identifiers_C02.
 
 (* directly on reference tokens (the writer only looks at class and code) *)
 Theorem C01_holds_spec_tokens : forall cfg src ss chunks,
